@@ -146,9 +146,19 @@ def op_impmtu(f):
     base = top / TCP(sport=1234, dport=80, flags="S", seq=99, window=1111, options=list(opts))
     if len(bytes(base[TCP])) - 20 > 40 - (0 if any(o[0] == "MSS" for o in opts) else 4):
         return "SKIP options-do-not-fit"
+    if "f" in wrap or "t" in wrap:
+        # the base has a history, as in an application: sniffed, inspected (MTU / TCP fingerprint of this very object), then impersonated
+        for fn in ([p["F"].fingerprint_mtu] if "f" in wrap else []) + ([p["F"].fingerprint_tcp] if "t" in wrap else []):
+            try:
+                fn(base, options=p["Options"](database=mtu_db([1500])))
+            except (p["E"].PacketError, p["E"].DatabaseError):
+                pass
     before = {k: v for k, v in base[TCP].fields.items() if k != "options"}
     before_ip = dict(base.fields)
     out = p["I"].impersonate_mtu(base, raw_signature=f[3])
+    if "2" in wrap:
+        # impersonated twice, the second request is the one that counts
+        out = p["I"].impersonate_mtu(out, raw_signature=f[3])
     same = out is base and {k: v for k, v in out[TCP].fields.items() if k != "options"} == before and dict(out.fields) == before_ip
     toks = ",".join(opt_to_tok(o) for o in out[TCP].options)
     db = mtu_db([1500])
